@@ -813,6 +813,21 @@ def rule_kahn(repo):
     ok = len(ifs) == 1 and norm(ifs[0].test) in (f"len({a[1]}) != len({a[2]})", f"len({a[2]}) != len({a[1]})", f"len({a[1]}) < len({a[2]})") and \
         any(isinstance(x, ast.Raise) and isinstance(x.exc, ast.Call) and norm(x.exc.func) == 'UpblkCyclicError' for x in ast.walk(ifs[0]))
     (r.ok if ok else r.bad)(sm, 'check_schedule', norm(ifs[0].test) if ifs else '', *([] if ok else ["an incomplete schedule (cyclic dependencies) must raise UpblkCyclicError", cfn.lineno]))
+    if ok:
+        # nothing that can fail for environmental reasons (graph rendering) may run unprotected before the raise
+        risky = [c for s_ in ifs[0].body for c in ast.walk(s_) if isinstance(c, ast.Call) and norm(c.func) in ('dump_dag',)]
+        unprot = []
+        for c in risky:
+            t = enclosing(c, (ast.Try,))
+            prot = t is not None and any(c2 is c for b in t.body for c2 in ast.walk(b)) and \
+                any(h.type is None or norm(h.type) in ('Exception', 'BaseException') for h in t.handlers) and \
+                not any(isinstance(x, ast.Raise) for h in t.handlers for x in ast.walk(h))
+            if not prot:
+                unprot.append(c)
+        (r.ok if not unprot else r.bad)(sm, 'check_schedule', 'debug rendering cannot mask the error',
+                                        *([] if not unprot else ["dump_dag (graphviz rendering + viewer) runs unprotected before the raise: without "
+                                                                 "graphviz / a viewer a cyclic design raises FileNotFoundError/ImportError instead "
+                                                                 "of UpblkCyclicError", unprot[0].lineno]))
     r.require_floor(24)
     return r
 
@@ -1019,6 +1034,7 @@ def _m(name, file, old, new, rule=None, count=1):
 
 
 MUTANTS = [
+    _m('check-schedule-render-unprotected', SIMPLE, "    try:\n      dump_dag( top, V_leftovers, E_leftovers )\n    except Exception:\n      pass\n", "    dump_dag( top, V_leftovers, E_leftovers )\n", 'R-kahn'),
     _m('methods-continuation-guarded', GENDAG, "              if (v, -1) not in visited:\n                visited.add( (v, -1) )\n                Q.append( (v, -1) )", "              if v in method_blks and (v, -1) not in visited:\n                visited.add( (v, -1) )\n                Q.append( (v, -1) )", 'R-C02-methods'),
     _m('methods-succ-orientation', GENDAG, "                    top._dag.all_constraints.add( (blk, v) )", "                    top._dag.all_constraints.add( (v, blk) )", 'R-C02-methods'),
     _m('methods-wrong-direction', GENDAG, "        if w >= 0:\n          for v in succ[u]:", "        if w <= 0:\n          for v in succ[u]:", 'R-C02-methods'),
